@@ -468,6 +468,22 @@ class C07(C01):
         return with_script(c, style, rng)
 
     def gen(self, tier, rng):
+        """all cases on the unchanged code; when the private per-transfer class is not available with the known
+        signature (a structural refactoring), only the cases the PUBLIC route can express are evaluated: server limits
+        inside the documented ranges and option strings that survive the wire (ASCII, no NUL) - see docs/C07.md"""
+        import fake_net
+        private = fake_net.private_class() is not None
+        skipped = 0
+        for c in self.gen_all(tier, rng):
+            if private or (fake_net.public_domain(c["default_tmo"], c["max_tmo"], c["retries"], c["max_bs"], c["wrap"])
+                           and c.get("proc", 0) == 0
+                           and all(ch != "\x00" and ord(ch) < 128 for kv in c["options"] for x in kv for ch in x)):
+                yield c
+            else:
+                skipped += 1
+        self.skipped_not_publicly_expressible = skipped
+
+    def gen_all(self, tier, rng):
         quick = tier == "quick"
         # (0) witnesses of the repaired defects first (D2: blksize above the limit; D3: file offset, pipe)
         for name in ("blksize", "BlkSize"):
